@@ -250,3 +250,17 @@ CHECKS["C18"] = {
     "assumptions": ["a goroutine dump taken in-process shows every server's goroutines; cycles are recognised by frame names"],
     "min": {"any": {"progress_checks": 10, "restarts_completed": 2}},
 }
+
+CHECKS["C12"] = {
+    "pkg": "./c12", "run": "^TestC12$", "level": "exploration",
+    "mem_gb": {"quick": 0, "thorough": 0},
+    "aux": [{"pkg": "github.com/marekgalovic/anndb/cmd/anndb", "name": "anndb", "env": "VERIF_ANNDB_BIN", "tags": "verif"}],
+    "technique": "runtime monitor on real cmd/anndb processes: liveness (process alive, List answers, valid requests served) after every hostile request class, and again after kill -9 + restart on the same data directory (log replay)",
+    "level_text": "Every request class (malformed ids of length 0/15/17/1000 on every RPC that takes one, unknown datasets and partitions, degenerate create parameters, empty and wrong-dimension vectors incl. the unvalidated PartitionBatch* path, NaN/Inf/subnormal/huge/zero coordinates under each metric, k = 0 / 2^20 / 2^32-1, over-long metadata, batches of 0/100/101/10000 items, duplicate and mixed batches) gets a freshly started real server with valid data; after the request the process must be alive, answer List and serve a valid insert+search, and after SIGKILL + restart it must replay its log, answer and serve again.",
+    "level_note": "Well-typed protobuf requests only; single-node servers (a poisoned entry kills every replica the same way); quick runs a seed-determined third of the classes, thorough all of them; server address space is capped at 25 GB so a runaway allocation ends the server.",
+    "shards": {"quick": 8, "thorough": 16},
+    "timeout": {"quick": 900, "thorough": 3400},
+    "rule": "case = request class (RPC x input class); non-trivial = the class ran to a verdict; distinct = class name",
+    "assumptions": ["the server binary is built from /repo's working tree by the driver (go build ./cmd/anndb)"],
+    "min": {"any": {"classes_run": 20}},
+}
